@@ -178,6 +178,17 @@ func ValidateSchemaDocument(sd *SchemaDocument) (*Schema, error) {
 		}
 	}
 
+	// A root operation type has to be an object type: anything else cannot be selected from, and an
+	// input object as the query root would receive the (output typed) introspection fields below.
+	for _, root := range []struct {
+		operation string
+		def       *Definition
+	}{{"Query", schema.Query}, {"Mutation", schema.Mutation}, {"Subscription", schema.Subscription}} {
+		if root.def != nil && root.def.Kind != Object {
+			return nil, gqlerror.ErrorPosf(root.def.Position, "%s root type must be Object type, it cannot be %s.", root.operation, root.def.Name)
+		}
+	}
+
 	if schema.Query != nil {
 		schema.Query.Fields = append(
 			schema.Query.Fields,
